@@ -236,6 +236,29 @@ package server
 //@   at-call ^peer.updateRoutes(withdrawn...) requires path.IsWithdraw
 //@   at-call ^sendfsmOutgoingMsg(peer, withdrawn) requires called(updateRoutes)
 
+// from C12 "kept ... until the per-family long-lived timer expires": the family whose long-lived timer has just
+// fired counts as expired when the peer's restart state is wound up - it never keeps "all expired" from being true
+//@ props C12
+//@ func (*peer).llgrRestartTimerExpired
+//@   claims step
+//@   loop 0 step a.State.Family == family ==> all == header(all)
+
+// from C12 "Stale routes disappear exactly when the restart timer expires without re-establishment": while the peer
+// is restarting, the retained routes are dropped (or the long-lived phase started) for no other reason than the
+// expiry of the restart timer - a reconnection attempt that fails inside the window is not one
+//@ func (*BgpServer).handleFSMMessage
+//@   claims at-call
+//@   at-call ^s.dropAdjRIBIn(peer, peer.configuredRFlist()) requires restartTimerExpired
+//@   at-call peer.llgrFamilies() requires restartTimerExpired
+
+// "... until the per-family long-lived timer expires": what the expiry removes are the routes still stale; routes the
+// peer has re-announced since (the session may be up again, End-of-RIB not yet in) are fresh and stay. The closure is
+// the management operation run by the timer goroutine: what it propagates comes from the sweep of stale routes
+//@ func (*BgpServer).handleFSMMessage$2$1
+//@   claims at-call
+//@   at-call s.propagateUpdate( requires called(DropStale) && !called(DropAll) && !called(dropAdjRIBIn)
+
+//@ props C17
 // from C17 "every ... import-RT ... change triggers exactly the advertisements and withdrawals needed": a route that
 // can no longer be imported into the neighbour's VRF replaces one that could (and was advertised): the neighbour is
 // sent the withdrawal, the function does not just drop the change (vrf is in scope at the returns of the VRF block)
